@@ -130,6 +130,24 @@ CLAIMED["C11"] = {
     "technique": "Lean 4 theorems (case analysis over the decision / handler definitions, frame lemmas) + differential correspondence + independent data-set oracle",
 }
 
+CLAIMED["C15"] = {
+    "text": "Proof. Lean theorems: a received Announce yields ForwardTLV actions for exactly its TLVs of propagating type, in arrival "
+            "order, tagged with the sender, and only if it was accepted into the foreign master list (forward_actions); the announce "
+            "timer consumes a prefix of the host's queue and appends, unmodified and in order, exactly those consumed TLVs whose sender "
+            "is the current parent (and that are not PATH_TRACE when the option is on), stopping at the first TLV that does not fit the "
+            "remaining room (fwdLoop_spec) - so nothing from other senders is ever forwarded, nothing twice, and what is left is the head "
+            "that did not fit; the emitted Announce never exceeds 1024 octets (announce_fits), decodes under the library's parser "
+            "(announce_decodes, for queued TLVs the parser itself produced) and is always sent (no failure branch); with path trace on "
+            "it begins with PATH_TRACE(stored path ++ own identity) whenever that fits, the stored path being the parent's "
+            "(path_trace_stored); an Announce of the parent whose path contains the own identity changes nothing at all - no data set, "
+            "no foreign master record, no timer, no forwarding (loop_discarded). Three genuine defects found by the oracle were "
+            "repaired by fix: commits (own parser rejected frames ending in an empty TLV; announce timer panicked when a TLV filled the "
+            "room exactly; a looping Announce updated the data sets before being discarded).",
+    "note": "Trusted: Lean kernel; generators. The daemon's TlvForwarder (broadcast channel, lag / overflow) is outside the model: the "
+            "host is modelled as handing a queue to the announce timer.",
+    "technique": "Lean 4 theorems (induction over the forwarding loop, TLV codec lemmas) + differential correspondence + independent TLV oracle",
+}
+
 CLAIMED["C14"] = {
     "text": "Proof. Lean theorems: a completed peer exchange hands the filter exactly ((t4'-t1)-(t3'-t2))/2 (Spec.peerDelay, `fixed` "
             "division semantics), stamped t4', for every timestamp and correction value; a Pdelay_Resp or follow-up for the current "
